@@ -296,6 +296,27 @@ func (e *executor) executeString() (string, error) {
 	return strings.TrimSpace(string(stdOutContents)), nil
 }
 
+// executeRaw runs the constructed Git command and returns the contents of
+// stdout without any processing. It is meant for NUL-delimited output, where
+// leading and trailing space characters can be part of a record.
+func (e *executor) executeRaw() (string, error) {
+	stdOut, stdErr, err := e.execute()
+	if err != nil {
+		stdErrContents, newErr := io.ReadAll(stdErr)
+		if newErr != nil {
+			return "", fmt.Errorf("unable to read stderr contents: %w; original err: %w", newErr, err)
+		}
+		return "", fmt.Errorf("%w when executing `git %s`: %s", err, strings.Join(e.args, " "), string(stdErrContents))
+	}
+
+	stdOutContents, err := io.ReadAll(stdOut)
+	if err != nil {
+		return "", fmt.Errorf("unable to read stdout contents: %w", err)
+	}
+
+	return string(stdOutContents), nil
+}
+
 // execute runs the constructed Git command and returns the raw stdout and
 // stderr contents. It adds the `--git-dir` argument if the repository has a
 // path set.
